@@ -179,8 +179,8 @@ def field_order(ctx):
             ok = oldv is not None and match_expr("_sf['name']", oldv, {'_sf': b['_sf']}) is not None and newv is not None and \
                 match_expr('_pat.sub(__TGT, _old)', newv, {'_old': old}) is not None
             # the rename happens under "this pattern matches the old name", first match wins
-            cond = node._parent
-            ok = ok and isinstance(cond, ast.If) and match_expr('_pat.match(_old)', cond.test, {'_old': old}) is not None and \
+            from sa.model import dominating_atoms as _da15
+            ok = ok and any(pol_ and match_expr('_pat.match(_old)', t_, {'_old': old}) is not None for t_, pol_ in _da15(node, st.node)) and \
                 isinstance(blk[-1], ast.Break)
     run.check(ok, 'ORD', st.where, st.qualname,
               "if pat.match(old): new = pat.sub(tgt, old); <row map>[old] = new; field['name'] = new; break",
